@@ -232,7 +232,7 @@ def check_case(ctx, kind, c, t, pdesc, hang, tobj=None):
         tp = tobj if tobj is not None else impl.TimePoint(**t_kwargs(t))
     except ValueError:
         ok_refusal = ("dom" in dy and dy["dom"] > max(c.leap)) or ("doy" in dy and dy["doy"] > c.len_leap) or \
-            ("week" in dy and dy["week"] > 53)
+            ("week" in dy and dy["week"] > max(c.weeks_in_year(y) for y in range(1990, 2030)))
         if not ok_refusal:
             ctx.violation("construct_truncated", sig, case, "truncated point accepted", "refused")
         else:
